@@ -35,11 +35,49 @@ class Theory:
         RA = z3.ArraySort(z3.IntSort(), z3.RealSort())
         self.sum_int = z3.Function("sum_int", IA, z3.IntSort(), z3.IntSort(), z3.IntSort())
         self.sum_real = z3.Function("sum_real", RA, z3.IntSort(), z3.IntSort(), z3.RealSort())
+        # Nonlinear integer operations as uninterpreted symbols (used when a property sets
+        # abstract_nl): function VCs then need only linear arithmetic + E-matching, and every
+        # arithmetic fact comes from a lemma that is proved separately with the symbols
+        # interpreted (see interp_axioms).
+        I2 = (z3.IntSort(), z3.IntSort(), z3.IntSort())
+        self.umul = z3.Function("umul", *I2)
+        self.udiv = z3.Function("udiv", *I2)
+        self.umod = z3.Function("umod", *I2)
+        self.ucdiv = z3.Function("ucdiv", *I2)
+
+    @staticmethod
+    def _num(t):
+        return isinstance(t, z3.IntNumRef)
+
+    def mul(self, x, y, abstract):
+        if abstract and x.is_int() and y.is_int() and not self._num(x) and not self._num(y):
+            return self.umul(x, y)
+        return x * y
+
+    def div(self, x, y, abstract):
+        return self.udiv(x, y) if abstract and not self._num(y) else x / y
+
+    def mod(self, x, y, abstract):
+        return self.umod(x, y) if abstract and not self._num(y) else x % y
+
+    def cdiv(self, x, y, abstract):
+        return self.ucdiv(x, y) if abstract and not self._num(y) else -((-x) / y)
+
+    def interp_axioms(self):
+        """Definitions of the abstracted operations (given to lemma VCs only)."""
+        a, b = z3.Ints("ia ib")
+        return [
+            z3.ForAll([a, b], self.umul(a, b) == a * b, patterns=[self.umul(a, b)]),
+            z3.ForAll([a, b], self.udiv(a, b) == a / b, patterns=[self.udiv(a, b)]),
+            z3.ForAll([a, b], self.umod(a, b) == a % b, patterns=[self.umod(a, b)]),
+            z3.ForAll([a, b], self.ucdiv(a, b) == -((-a) / b), patterns=[self.ucdiv(a, b)]),
+        ]
 
 
 class FnSpec:
-    def __init__(self, relfile, qualname, fn, label=None, trusted=False, external=False, cls=None, name=None, why_trusted=None):
+    def __init__(self, relfile, qualname, fn, label=None, trusted=False, external=False, cls=None, name=None, why_trusted=None, hints=None):
         self.relfile, self.qualname, self.fn, self.label = relfile, qualname, fn, label
+        self.hints = hints  # names of the lemmas whose closed forms this function's VCs may use (None: all)
         self.trusted, self.external, self.why_trusted = trusted, external, why_trusted
         self.name = name or qualname.split(".")[-1]
         parts = qualname.split(".")
@@ -69,6 +107,7 @@ class Property:
         self.drop_calls = list(DEFAULT_DROPS)
         self.assert_mode = "raise"
         self.truthy_objects = True
+        self.abstract_nl = False
         self.hints = []  # (name, formula, lean_name)
         self.lemmas: list[Lemma] = []
         self.theory = Theory()
@@ -78,6 +117,7 @@ class Property:
         self.alloc0 = z3.Function("allocated0", Ref, z3.BoolSort())
         self.class_tag = z3.Function("class_of", Ref, z3.IntSort())
         self._class_ids = {}
+        self.closed_named = {}  # "<lemma>.<step>" -> closed formula proven by that lemma VC
         self.oracle = None  # module name under /verif/oracles
         self.mutants = []
 
@@ -114,6 +154,14 @@ class Property:
             return f
 
         return deco
+
+    def lemma_instance(self, key, *terms):
+        """Instance of the closed lemma proven under `key` ("<lemma>.<step name>")."""
+        from .lemma import LemmaCtx
+
+        if key not in self.closed_named:
+            raise KeyError(f"no proven lemma step named {key}; have {sorted(self.closed_named)}")
+        return LemmaCtx.instance(self.closed_named[key], *terms)
 
     def assume_note(self, text):
         if text not in self.assumptions:
@@ -381,6 +429,21 @@ class FnCtx:
             outer = self.ex.fctx.decreases_term
             if outer is not None:
                 self.ex.oblige(f"{self.ex.qualname}/recursion.variant@{self._line()}", z3.And(term >= 0, term < outer), "variant")
+
+    def use(self, lemma_key, *terms):
+        """Lemma call: the instance at `terms` (terms over the arguments) of the closed
+        lemma step proven under `lemma_key` is available while verifying this function."""
+        if self.mode == "verify":
+            self.ex.assume(self.prop.lemma_instance(lemma_key, *terms))
+
+    def mark(self, atom):
+        """Assume an instantiation guard `mark...(terms)`.  Guard predicates are uninterpreted,
+        occur in lemmas only as hypotheses and nowhere in contracts, so every model can
+        interpret them as `true`: assuming the atom adds no logical content; it only gives
+        the guarded lemmas a term to match."""
+        assert z3.is_app(atom) and atom.decl().kind() == z3.Z3_OP_UNINTERPRETED and atom.decl().name().startswith("mark") and z3.is_bool(atom)
+        if self.mode == "verify":
+            self.ex.assume(atom)
 
     def known_class(self, class_id, formula):
         """Input class of a recorded known finding (see /verif/known_findings.json): the
